@@ -28,6 +28,17 @@ fn faults<F: Family>(p: &F::Packet, t: &mut Tape, ctx: &mut Ctx) -> CaseResult {
     let len = enc.len();
     let spans = c07::spans_of::<F>(p, &enc);
     let mut pos = c07::positions(len, &spans, t, 260, 16);
+    if len > 200_000 {
+        // large packets: field boundaries and a handful of positions spread over the whole encoding
+        pos.retain(|k| *k < 64 || *k + 8 > len);
+        for i in 1..10 {
+            pos.push(len / 10 * i + t.pick(1000));
+        }
+        pos.push((1 << 20) + t.pick(4096));
+        pos.retain(|k| *k < len);
+        pos.sort_unstable();
+        pos.dedup();
+    }
     pos.push(len);
     let chunky: Vec<Step> = (0..t.pick(12)).map(|_| if t.flag() { Step::Pending } else { Step::Chunk(1 + t.pick(7)) }).collect();
     let mut inside = 0u64;
@@ -36,6 +47,9 @@ fn faults<F: Family>(p: &F::Packet, t: &mut Tape, ctx: &mut Ctx) -> CaseResult {
         let kinds: &[ErrorKind] = if i % 16 == 0 { KINDS } else { std::slice::from_ref(&kind) };
         for &kind in kinds {
             for delivery in 0..2 {
+                if delivery == 1 && len > 200_000 && i % 4 != 0 {
+                    continue;
+                }
                 let steps: &[Step] = if delivery == 0 { &[] } else { &chunky };
                 // async decoder
                 let mut rd = ScriptedReader::new(&enc, steps).with_fault(k, kind);
@@ -238,6 +252,18 @@ fn conversions(_input: &Input, ctx: &mut Ctx) -> CaseResult {
     Ok(())
 }
 
+/// boundary-size constructions (sized.rs): faults and EOF inside large payloads / property sections
+fn case_sized<F: Family>(input: &Input, ctx: &mut Ctx) -> CaseResult {
+    let seed: Vec<u16> = input.nums().iter().map(|x| (*x as u16).wrapping_mul(40_503)).chain((0..40u16).map(|i| i.wrapping_mul(25_173).wrapping_add(13_849))).collect();
+    let mut t = Tape::new(&seed);
+    match crate::sized::from_input::<F>(input, ctx) {
+        Some(p) => faults::<F>(&p, &mut t, ctx),
+        None => Ok(()),
+    }
+}
+
+pub const SUB_S3: Sub = Sub { name: "c14.sized.v3", f: case_sized::<V3> };
+pub const SUB_S5: Sub = Sub { name: "c14.sized.v5", f: case_sized::<V5> };
 pub const SUB_V3: Sub = Sub { name: "c14.faults.v3", f: case::<V3> };
 pub const SUB_V5: Sub = Sub { name: "c14.faults.v5", f: case::<V5> };
 pub const SUB_T3: Sub = Sub { name: "c14.typed.v3", f: case_typed::<V3> };
@@ -245,7 +271,7 @@ pub const SUB_T5: Sub = Sub { name: "c14.typed.v5", f: case_typed::<V5> };
 pub const SUB_CONV: Sub = Sub { name: "c14.conversions", f: conversions };
 
 pub fn subs() -> Vec<Sub> {
-    vec![SUB_V3, SUB_V5, SUB_T3, SUB_T5, SUB_CONV]
+    vec![SUB_V3, SUB_V5, SUB_T3, SUB_T5, SUB_CONV, SUB_S3, SUB_S5]
 }
 
 pub fn run(env: &mut Env) -> RunResult {
@@ -255,6 +281,19 @@ pub fn run(env: &mut Env) -> RunResult {
     env.run_tapes(SUB_T3, n, 120)?;
     env.run_tapes(SUB_T5, n, 220)?;
     env.run_inputs(SUB_CONV, &[Input::Nums(vec![0])])?;
+    let lim = env.tier.sel(3_000_000u64, 21_000_000u64);
+    for (sub, fam) in [(SUB_S3, model::Fam::V3), (SUB_S5, model::Fam::V5)] {
+        let cs: Vec<Input> = crate::sized::cases(fam, env.thorough())
+            .into_iter()
+            .filter(|c| c[2] <= lim && c[2] >= 16_000 && !(c[0] == crate::sized::K_PROPS && c[2] >= 2_000_000 && !matches!(c[1], 1 | 2 | 13)))
+            .filter(|c| env.thorough() || c[2] < 100_000 || c[2] % 2 == 0)
+            .map(|c| Input::Nums(c.to_vec()))
+            .collect();
+        let n = cs.len() as u64;
+        env.run_enum(sub, n, false, move |i| cs[i as usize].clone())?;
+    }
+    env.require("c14.sized.v3", "sized:2MiB-boundary");
+    env.require("c14.sized.v5", "sized:2MiB-boundary");
     for s in ["c14.faults.v3", "c14.faults.v5"] {
         env.require(s, "fault-strictly-inside-packet");
         env.require(s, "streaming-encoder-faults");
